@@ -251,6 +251,12 @@ static int disasm_pop(
     snprintf(instruction, length, "%s", table_unsp[n].instr);
   }
     else
+  if (opn == 1 && operand_a + 1 > 7)
+  {
+    // There is no register after pc.
+    snprintf(instruction, length, "???");
+  }
+    else
   if (opn == 1)
   {
     snprintf(instruction, length, "%s %s, [%s]",
